@@ -12,6 +12,7 @@ mod child;
 mod parseobs;
 mod pgen;
 mod c05;
+mod c06;
 
 pub struct Opts {
     pub seed: u64,
@@ -33,6 +34,8 @@ fn main() {
         c05::install_panic_capture();
         child::child_main(&args[2..], &|mode, input| match mode {
             "c05" => c05::child_observe(input),
+            "c06" => c06::child_observe(input),
+            "c06load" => c06::child_load(input),
             _ => "{\"harness_error\":\"unknown mode\"}".to_string(),
         });
         return;
@@ -83,6 +86,7 @@ fn main() {
         "c02" => c02::run(&o, "C02"),
         "c03" => c02::run(&o, "C03"),
         "c05" => c05::run(&o),
+        "c06" => c06::run(&o),
         _ => {
             eprintln!("unknown property {}", prop);
             std::process::exit(2);
